@@ -80,7 +80,12 @@ def gen_traces(args):
             obj = cls(**kw)
         except Exception:
             continue
-        rec = H.Recorder(obj, name, X.astype(float), None if y is None else y.astype(float), unit, exact)
+        # scaled lattices for the exact families (the code sees X*scale: genuine rounding); absolute thresholds are
+        # given in raw score units, so they are only combined with the unscaled lattice
+        scale = 1.0
+        if exact and (thr is None or thr_type == "relative"):
+            scale = [1.0, 1.0, 1e-5, 3.7e-3, 0.25, 1e3][int(rng.integers(6))]
+        rec = H.Recorder(obj, name, X.astype(float) * scale, None if y is None else y.astype(float) * scale, unit / (scale * scale), exact)
         # chain of fits
         def pick(lo):
             f = int(rng.integers(3))
@@ -107,7 +112,7 @@ def gen_traces(args):
                 ok = rec.fit(nts2, warm=True, thr=thr, thr_type=thr_type, with_y=with_y, init=[])
             else:
                 ok = rec.fit(pick(len(init)), warm=False, thr=thr, thr_type=thr_type, with_y=with_y, init=init)
-        out.append({"id": "w%d-%d" % (wid, t), "n": int(N), "family": family, "cls": name, "tol": tol, "unit": unit,
+        out.append({"id": "w%d-%d" % (wid, t), "n": int(N), "family": family, "cls": name, "tol": tol, "unit": unit, "scale": scale,
                     "kind": kind, "params": {k: (v.tolist() if isinstance(v, np.ndarray) else v) for k, v in kw.items()},
                     "X": X.tolist(), "y": None if y is None else np.asarray(y).tolist(),
                     "layer": rec.layer, "events": rec.events})
